@@ -523,9 +523,12 @@ func (k *kitchen) buildOps() {
 			via := via
 			store := k.storeFor(via)
 			for _, name := range []string{"A", "B", ""} {
-				for _, roles := range [][]string{nil, {"r"}} {
+				for _, roles := range [][]string{nil, {"r"}, {"r", "r"}} {
 					for _, org := range orgChoices {
 						name, roles, org := name, roles, org
+						if len(roles) == 2 && (name != "A" || org != nil) {
+							continue // a list with a duplicate (stored as a set: what is stored differs from what the caller passed)
+						}
 						if name == "" && (roles != nil || org != nil) {
 							continue // the empty value of the non-nullable unique index: once per store and id
 						}
